@@ -12,6 +12,9 @@
 #include <deque>
 #include <algorithm>
 #include <new>
+#include <atomic>
+#include <pthread.h>
+#include <sched.h>
 #include "lib/ebus/protocol_direct.h"
 #include "lib/ebus/device_trans.h"
 #include "lib/utils/clock.h"
@@ -20,18 +23,23 @@
 using namespace ebusd;
 
 // ---------------------------------------------------------------- virtual clock
-static uint64_t g_ms = 5000000;   // monotone milliseconds (device deadline loops)
-static time_t g_sec = 200000;     // time(): seconds, advanced only by "long" timeouts chosen by the environment
+static std::atomic<uint64_t> g_ms(5000000);   // monotone milliseconds (device deadline loops)
+static std::atomic<long> g_sec(200000);       // time(): seconds, advanced only by "long" timeouts chosen by the environment
 namespace ebusd {
-void clockGettime(struct timespec* t) { t->tv_sec = (time_t)(g_ms / 1000); t->tv_nsec = (long)(g_ms % 1000) * 1000000L; }
+void clockGettime(struct timespec* t) { uint64_t m = g_ms; t->tv_sec = (time_t)(m / 1000); t->tv_nsec = (long)(m % 1000) * 1000000L; }
 uint64_t clockGetMillis() { return g_ms; }
 }
-extern "C" time_t time(time_t* t) { if (t) *t = g_sec; return g_sec; }
+extern "C" time_t time(time_t* t) { time_t v = (time_t)g_sec.load(); if (t) *t = v; return v; }
 
 // ---------------------------------------------------------------- event log of the current step
 static std::string g_ev;
 static std::string g_mask;  // ",rx,tx," : only these event kinds are logged (empty = all)
+static std::atomic<long> g_reads(0);
+static bool g_runMode = false;               // run mode: real bus thread + client threads, events serialised by a mutex
+static pthread_mutex_t g_evMutex = PTHREAD_MUTEX_INITIALIZER;
+static std::vector<std::string> g_runEvents;
 static void ev(const std::string& s) {
+  if (g_runMode) { pthread_mutex_lock(&g_evMutex); g_runEvents.push_back(s); pthread_mutex_unlock(&g_evMutex); return; }
   if (!g_mask.empty()) { size_t q = s.find('"', 2); if (g_mask.find("," + s.substr(2, q - 2) + ",") == std::string::npos) return; }
   if (!g_ev.empty()) g_ev += ",";
   g_ev += s;
@@ -250,6 +258,7 @@ struct FakeTransport : public Transport {
     return RESULT_OK;
   }
   result_t read(unsigned int timeout, const uint8_t** data, size_t* len) override {
+    if (g_runMode) g_reads++;
     if (!valid) return RESULT_ERR_DEVICE;
     if (buf.empty()) {
       if (timeout == 0) return RESULT_ERR_TIMEOUT;
@@ -381,7 +390,7 @@ struct VerifAccess {
     s->nextSendPos = (int)h->m_nextSendPos; s->cur = reqIndex(h->m_currentRequest); s->answering = h->m_currentAnswering;
     s->remainLock = h->m_remainLockCount; s->lockCount = h->m_lockCount; s->genSyn = h->m_generateSynInterval;
     s->lstate = h->m_listenerState; s->masterCount = h->m_masterCount; s->conflict = h->m_addressConflict;
-    s->age = h->m_lastReceive == 0 ? 2 : (g_sec - h->m_lastReceive > 1 ? 2 : (int)(g_sec - h->m_lastReceive));
+    s->age = h->m_lastReceive == 0 ? 2 : ((long)g_sec - h->m_lastReceive > 1 ? 2 : (int)((long)g_sec - h->m_lastReceive));
     s->reconnect = h->m_reconnect;
     s->command.assign(h->m_command.data(), h->m_command.data() + h->m_command.size());
     s->response.assign(h->m_response.data(), h->m_response.data() + h->m_response.size());
@@ -394,7 +403,7 @@ struct VerifAccess {
     s->arbMaster = d->m_arbitrationMaster; s->arbCheck = (int)d->m_arbitrationCheck;
     s->enhResetAge = 0; s->enhResetRequested = 0; s->enhFeatures = 0; s->enhInfoLen = 0; s->enhInfoPos = 0; s->enhInfoBuf.clear();
     if (C.enhanced) { EnhancedDevice* e = static_cast<EnhancedDevice*>(d);
-      s->enhResetAge = e->m_resetTime == 0 ? 2 : (e->m_resetTime + 3 >= g_sec ? 0 : 1); s->enhResetRequested = e->m_resetRequested; s->enhFeatures = e->m_extraFeatures;
+      s->enhResetAge = e->m_resetTime == 0 ? 2 : (e->m_resetTime + 3 >= (long)g_sec ? 0 : 1); s->enhResetRequested = e->m_resetRequested; s->enhFeatures = e->m_extraFeatures;
       s->enhInfoLen = (int)e->m_infoLen; s->enhInfoPos = (int)e->m_infoPos;
       if (e->m_infoLen) s->enhInfoBuf.assign(e->m_infoBuf, e->m_infoBuf + std::min<size_t>(e->m_infoPos, sizeof(e->m_infoBuf))); }
     s->buf = t->buf; s->org = t->org; s->valid = t->valid; s->armed = t->armed; s->trk = g_trk;
@@ -404,7 +413,7 @@ struct VerifAccess {
     h->m_state = (BusState)s.state; h->m_escape = (symbol_t)s.escape; h->m_crc = (symbol_t)s.crc; h->m_crcValid = s.crcValid; h->m_repeat = s.repeat;
     h->m_nextSendPos = (size_t)s.nextSendPos; h->m_currentAnswering = s.answering; h->m_remainLockCount = s.remainLock; h->m_lockCount = s.lockCount;
     h->m_generateSynInterval = s.genSyn; h->m_listenerState = (ProtocolState)s.lstate; h->m_masterCount = s.masterCount; h->m_addressConflict = s.conflict;
-    h->m_lastReceive = s.age == 3 ? 0 : g_sec - s.age; h->m_reconnect = s.reconnect;
+    h->m_lastReceive = s.age == 3 ? 0 : (long)g_sec - s.age; h->m_reconnect = s.reconnect;
     h->m_command.clear(); for (uint8_t x : s.command) h->m_command.push_back(x);
     h->m_response.clear(); for (uint8_t x : s.response) h->m_response.push_back(x);
     memset(h->m_seenAddresses, 0, sizeof(h->m_seenAddresses)); for (uint8_t x : s.seen) h->m_seenAddresses[x] = true;
@@ -422,9 +431,9 @@ struct VerifAccess {
     h->m_finishedRequests.m_queue.clear(); for (int i : s.finq) h->m_finishedRequests.m_queue.push_back(g_reqs[i]);
     d->m_arbitrationMaster = (symbol_t)s.arbMaster; d->m_arbitrationCheck = (size_t)s.arbCheck;
     if (C.enhanced) { EnhancedDevice* e = static_cast<EnhancedDevice*>(d);
-      e->m_resetTime = s.enhResetAge == 2 ? 0 : (s.enhResetAge == 0 ? g_sec : g_sec - 10); e->m_resetRequested = s.enhResetRequested; e->m_extraFeatures = (symbol_t)s.enhFeatures;
+      e->m_resetTime = s.enhResetAge == 2 ? 0 : (s.enhResetAge == 0 ? (long)g_sec : (long)g_sec - 10); e->m_resetRequested = s.enhResetRequested; e->m_extraFeatures = (symbol_t)s.enhFeatures;
       e->m_infoLen = (size_t)s.enhInfoLen; e->m_infoPos = (size_t)s.enhInfoPos; for (size_t i = 0; i < s.enhInfoBuf.size(); i++) e->m_infoBuf[i] = s.enhInfoBuf[i];
-      e->m_infoReqTime = g_sec; }
+      e->m_infoReqTime = (long)g_sec; }
     t->buf = s.buf; t->org = s.org; t->valid = s.valid; t->armed = (uint8_t)s.armed; g_trk = s.trk;
   }
   static int arbCheck(BaseDevice* d) { return (int)d->m_arbitrationCheck; }
@@ -728,8 +737,12 @@ static std::string randomDeliv(const Tracker& t) {
     case P_QQ: { unsigned y = r.below(20); return y < 3 ? "aa" : y < 18 ? h2(MASTERS[r.below(25)]) : any(); }
     case P_ZZ: { unsigned y = r.below(20); return y < 4 ? "fe" : y < 8 ? h2(MASTERS[r.below(25)]) : y < 10 ? h2(C.own) : y < 12 ? h2((uint8_t)(C.own + 5)) : y < 13 ? h2(t.qq) : any(); }
     case P_PB: case P_SB: return r.chance(1, 2) ? (t.ph == P_PB ? h2(C.pbs[0]) : h2(C.sbs[0])) : any();
-    case P_NN: case P_SNN: { unsigned y = r.below(20); return y < 8 ? h2((uint8_t)r.below(3)) : y < 18 ? h2((uint8_t)r.below(17)) : y < 19 ? "11" : any(); }
-    case P_DATA: case P_SDATA: { unsigned y = r.below(20); return y < 3 ? "a9" : any(); }
+    case P_SNN: if (g_runMode) return "01";  // run mode: the scripted slave answers <<1, ZZ xor 5a>>
+      // fall through
+    case P_NN: { unsigned y = r.below(20); return y < 8 ? h2((uint8_t)r.below(3)) : y < 18 ? h2((uint8_t)r.below(17)) : y < 19 ? "11" : any(); }
+    case P_SDATA: if (g_runMode) return h2((uint8_t)(t.zz ^ 0x5a));
+      // fall through
+    case P_DATA: { unsigned y = r.below(20); return y < 3 ? "a9" : any(); }
     case P_CRC: case P_SCRC: { uint8_t good = t.crc; if (r.chance(1, 8)) return any(); return (good == ESC || good == SYN) ? "a9" : h2(good); }
     case P_ACK: case P_SACK: { unsigned y = r.below(20); return y < 14 ? "00" : y < 18 ? "ff" : any(); }
   }
@@ -775,6 +788,78 @@ static int cmdRandom(const char* outPath, long steps) {
   return 0;
 }
 
+// ---------------------------------------------------------------- run mode: the real run() thread against client threads
+struct Client { int id; int ops; pthread_t th; std::atomic<long> startReads; std::atomic<int> busy; std::atomic<int> done; };
+static std::vector<Client*> g_clients;
+static void* clientMain(void* arg) {
+  Client* c = (Client*)arg;
+  vf::Rng rng(vf::seedFromEnv() * 1000 + c->id);
+  for (int k = 0; k < c->ops; k++) {
+    bool useSendAndWait = rng.chance(1, 2);
+    c->startReads = g_reads.load(); c->busy = 1;
+    if (useSendAndWait) {
+      MasterSymbolString m; m.push_back(C.own); m.push_back((uint8_t)(0x50 + c->id)); m.push_back(C.pbs[0]); m.push_back(C.sbs[0]); m.push_back(1); m.push_back((uint8_t)k);
+      SlaveSymbolString sl;
+      ev("[\"sawstart\"," + std::to_string(c->id) + "," + jb(m) + "]");
+      result_t res = g_h->sendAndWait(m, &sl);
+      ev("[\"sawend\"," + std::to_string(c->id) + "," + std::to_string((int)res) + "," + jb(sl) + "]");
+    } else {
+      VReq* q = g_reqs[c->id];
+      MasterSymbolString* m = g_masters[c->id]; m->clear();
+      m->push_back(C.own); m->push_back((uint8_t)(0x50 + c->id)); m->push_back(C.pbs[0]); m->push_back(C.sbs[0]); m->push_back(1); m->push_back((uint8_t)(0x80 | k));
+      q->status = 1; q->result = 0; q->slaveLen = 0;
+      ev("[\"sub\"," + std::to_string(c->id) + ",0," + jb(*m) + ",0]");
+      result_t res = g_h->addRequest(q, true);   // waits on the finished queue like a real client
+      (void)res;
+      ev("[\"fin\"," + std::to_string(c->id) + "," + std::to_string(q->result) + "," + vf::jbytes(q->slave()) + "]");
+      q->status = 0;
+    }
+    c->busy = 0;
+    for (unsigned y = rng.below(3); y > 0; y--) sched_yield();
+  }
+  c->done = 1;
+  return nullptr;
+}
+static void writeRunTrace(const char* outPath) {
+  vf::Out out(outPath);
+  long id = 1; size_t i = 0;
+  pthread_mutex_lock(&g_evMutex);
+  while (i < g_runEvents.size()) {
+    std::string evs;
+    for (int k = 0; k < 25 && i < g_runEvents.size(); k++, i++) { if (!evs.empty()) evs += ","; evs += g_runEvents[i]; }
+    out.raw("{\"id\":" + std::to_string(id) + ",\"succ\":[{\"in\":\"run\",\"ev\":[" + evs + "],\"to\":" + std::to_string(id + 1) + "}]}\n");
+    id++;
+  }
+  pthread_mutex_unlock(&g_evMutex);
+  out.raw("{\"id\":" + std::to_string(id) + ",\"succ\":[]}\n");
+  printf("{\"nodes\":%ld,\"edges\":%ld,\"fixpoint\":true,\"run\":true,\"events\":%zu,\"reads\":%ld}\n", id, id - 1, g_runEvents.size(), g_reads.load());
+}
+static int cmdRun(const char* outPath, int nclients, int ops) {
+  static Input runIn; static vf::Rng rng(vf::seedFromEnv());
+  g_runMode = true; g_in = &runIn; g_rng = &rng;
+  for (int c = 0; c < nclients; c++) { Client* cl = new Client(); cl->id = c; cl->ops = ops; cl->busy = 0; cl->startReads = 0; cl->done = 0; g_clients.push_back(cl); }
+  g_h->start("bus");
+  for (Client* cl : g_clients) pthread_create(&cl->th, nullptr, clientMain, cl);
+  // progress watchdog: counts bus reads, no wall clock in the criterion
+  bool stuck = false;
+  for (;;) {
+    bool any = false;
+    for (Client* cl : g_clients) {
+      if (cl->busy) { any = true; if (g_reads.load() - cl->startReads.load() > 3000000) { stuck = true; ev("[\"bad\",\"waiter-never-released\"," + std::to_string(cl->id) + "]"); } }
+    }
+    bool allDone = true;
+    for (Client* cl : g_clients) if (!cl->done) allDone = false;
+    if (stuck) { writeRunTrace(outPath); fflush(nullptr); _exit(0); }
+    if (allDone) break;
+    (void)any; usleep(1000);
+  }
+  for (Client* cl : g_clients) pthread_join(cl->th, nullptr);
+  g_h->stop(); g_h->join();
+  writeRunTrace(outPath);
+  return 0;
+}
+
+static int ops_from_env() { const char* e = getenv("VF_RUN_OPS"); return e ? atoi(e) : 50; }
 int main(int argc, char** argv) {
   vf::installTerminate();
   setFacilitiesLogLevel(0xffff, ll_none);
@@ -786,5 +871,6 @@ int main(int argc, char** argv) {
   if (mode == "graph") return cmdGraph(argv[2]);
   if (mode == "replay") return cmdReplay(argv[3], argv[2]);
   if (mode == "random") return cmdRandom(argv[2], atol(argv[3]));
+  if (mode == "run") { int nc = atoi(argv[3]); return cmdRun(argv[2], nc, ops_from_env()); }
   return 2;
 }
